@@ -3,6 +3,18 @@
 import json, os
 V = os.path.dirname(os.path.dirname(os.path.abspath(__file__)))
 CHECKS = {
+    'C02': dict(
+        technique='Lean 4 proof (iteration control as a total function: bounded work, sound convergence report, exact failure condition, monotonicity in the limit; the truth is a zero of the residual) on a hand model + correspondence through the iteration-limit ladder + E-network ground truth as oracle',
+        text='Theorems: the solver loop evaluates its step at most limit + 1 times; a reported convergence passed the tolerance test and is an iterate of the step; it fails exactly when '
+             'no permitted iterate passes; raising the limit never changes a converged result; for any parameter values the E-network measurement satisfies the T equation with the '
+             'true terms (the residual vanishes at the truth). On the compiled C: TRL, unknown reciprocal through (SOLR), redundant unknown reflect and connection-repeatability '
+             'models on the applicable error-term types, m and a/b: parameter values and corrected device within 1e-4 (default tolerances 1e-6); a tolerance ladder 1e-3..1e-10 '
+             'bounds and does not worsen the result; the iteration-limit ladder behaves as the model predicts (EDOM below the least sufficient limit, bit-identical results above); '
+             'guesses far outside the basin return (converged elsewhere or EDOM).',
+        note='Lean kernel + standard axioms; Model/IterCtl.lean abstracts the Levenberg-Marquardt step and the tolerance test as parameters: convergence from a guess in the basin is a '
+             'numerical fact measured by the oracle, not proved; TRL / SOLR are posed for the 8- and 10-term types only (the 12/14-term models are not determined by them); the '
+             'repeatability model is statistical: limits of a few sigma.',
+        ref='DESIGN.md §6 C02'),
     'C04': dict(
         technique='Lean 4 proof over a model regenerated from the C source (clang AST translator) + differential run of the generated model against the compiled C + defining-relation oracle',
         text='All 81 two-port vnaconv functions are re-translated from /repo/src on every run and, for each, Lean re-checks: '
